@@ -142,3 +142,39 @@ def publickey_without_proof(inp):
             finally:
                 a.close(); b.close()
     return {"violates": bool(bad), "detail": bad[:4]}
+
+
+def partial_publickey_is_not_success(inp):
+    """an application for which the public key is only the first factor (AUTH_PARTIALLY_SUCCESSFUL): whatever the client
+    does with that key - signed request, unsigned probe then signed request, probe twice - the server must not report
+    success"""
+    from paramiko import ECDSAKey
+    from paramiko.common import AUTH_PARTIALLY_SUCCESSFUL
+
+    class Partial(Refuser):
+        def check_auth_publickey(self, username, key):
+            return AUTH_PARTIALLY_SUCCESSFUL
+
+    k = ECDSAKey.generate()
+    bad = []
+    for script in (("signed",), ("probe", "signed"), ("probe", "probe", "signed")):
+        t, a, b = server()
+        t.server_object = Partial()
+        try:
+            h = t.auth_handler
+            for step in script:
+                m = Message()
+                m.add_string("alice"); m.add_string("ssh-connection"); m.add_string("publickey"); m.add_boolean(step == "signed")
+                m.add_string(k.get_name()); m.add_string(k.asbytes())
+                if step == "signed":
+                    blob = h._get_session_blob(k, "ssh-connection", "alice", k.get_name())
+                    m.add_string(k.sign_ssh_data(blob, k.get_name()).asbytes())
+                try:
+                    h._parse_userauth_request(Message(m.asbytes()))
+                except Exception:
+                    pass
+            if granted(t):
+                bad.append({"requests": list(script), "why": "USERAUTH_SUCCESS although the application only ever answered 'partially successful'"})
+        finally:
+            a.close(); b.close()
+    return {"violates": bool(bad), "detail": bad[:3]}
